@@ -67,7 +67,12 @@ func genBroadTransferNoPassthrough(t *rapid.T, w *world.World) kit.Transfer {
 
 func genMixedPacket(t *rapid.T, w *world.World) kit.Transfer {
 	tr := genBroadTransfer(t, w)
-	switch pick(t, "packet/class", []string{"orbiter", "orbiter", "orbiter", "orbiter", "orbiter", "orbiter", "receiver", "receiver", "mutated", "garbage", "spelled", "crossed-token", "unregistered-action", "unrouted-protocol"}) {
+	switch pick(t, "packet/class", []string{"orbiter", "orbiter", "orbiter", "orbiter", "orbiter", "orbiter", "receiver", "receiver", "mutated", "garbage", "spelled", "crossed-token", "unregistered-action", "unrouted-protocol", "foreign-coin"}) {
+	case "foreign-coin":
+		// a coin that is not a Noble-native coin on its way back (native of the sender's chain, or
+		// a voucher with a longer trace), addressed to the orbiter account with a valid payload
+		d := pick(t, "foreign/denom", []string{"uatom", "uosmo", "transfer/channel-99/uatom", world.ReturnDenom(tr.Channel, "transfer/channel-5/uusdc"), "ibc/ABC", "wasm.contract/channel-3/utoken"})
+		tr.RawDenom = &d
 	case "unrouted-protocol":
 		// a protocol identifier that is valid (and can be paused) but has no forwarding controller
 		// in the application's wiring, over attributes of a registered type
